@@ -46,7 +46,7 @@ def run(v, tier, replay):
                 if d == "honest":
                     continue
                 b = rest.split(".")[0] if d in ("trunc", "mut", "len", "extend") else "none"
-                if d == "envelope":
+                if d in ("envelope", "zerokey"):
                     b = rest.split(" ")[0]
                 covered.add((g[0], g[1], d, b))
             if rc is None:
